@@ -64,6 +64,9 @@ func init() {
 		"(*golang.org/x/sync/semaphore.Weighted).Acquire": func(in *Interp, fr *Frame, a []Value) (Value, bool) {
 			s := in.side[a[0].R.(*Value)].(*semSt)
 			n := sextW(a[2].N, 64)
+			if c := ctxOf(a[1]); c != nil && c.done != nil && c.done.closed {
+				return c.err, true // ctx done "happened before": fail even if a slot is free
+			}
 			if s.cur+n <= s.size {
 				s.cur += n
 				return nilErr, true
